@@ -792,6 +792,7 @@ type Printer struct {
 	names    map[*Term]string
 	defs     []string
 	nodes    int
+	letCount int
 }
 
 func collectSort(p *Printer, s *Sort) {
@@ -854,7 +855,50 @@ func (p *Printer) str(t *Term) string {
 			b.WriteString("(" + v.Op + " " + v.S.String() + ")")
 		}
 		b.WriteString(") ")
+		// let-bind shared subterms that contain bound variables (they cannot be hoisted to define-funs)
+		cnt := map[*Term]int{}
+		var order []*Term
+		var scan func(n *Term)
+		scan = func(n *Term) {
+			if !n.hasBound || n.K == TBound {
+				return
+			}
+			cnt[n]++
+			if cnt[n] > 1 {
+				return
+			}
+			if n.K != TQuant {
+				for _, a := range n.Args {
+					scan(a)
+				}
+			}
+			order = append(order, n)
+		}
+		scan(t.Args[0])
+		saved := map[*Term]string{}
+		var lets []string
+		for _, n := range order {
+			if cnt[n] > 1 && n.K == TApp && len(n.Args) > 0 && n != t.Args[0] {
+				if _, has := p.names[n]; has {
+					continue
+				}
+				txt := p.str(n)
+				if len(txt) < 30 {
+					continue
+				}
+				p.letCount++
+				name := fmt.Sprintf("?l%d", p.letCount)
+				lets = append(lets, "(let (("+name+" "+txt+")) ")
+				p.names[n] = name
+				saved[n] = name
+			}
+		}
 		body := p.str(t.Args[0])
+		body = strings.Join(lets, "") + body + strings.Repeat(")", len(lets))
+		// patterns are printed without the let names
+		for n := range saved {
+			delete(p.names, n)
+		}
 		if len(t.Pats) > 0 {
 			b.WriteString("(! " + body)
 			for _, ps := range t.Pats {
